@@ -5,6 +5,8 @@ import (
 	"math/rand"
 	"regexp"
 	"strings"
+
+	"github.com/rhysd/actionlint"
 )
 
 func init() { props["C08"] = runC08 }
@@ -158,6 +160,40 @@ jobs:
       - run: echo ${{ «always»() }}
         if: ${{ «failure»() || «cancelled»() }}
 `,
+	// script positions (run: and the script input of actions/github-script) with untrusted inputs, service ids,
+	// keys nested inside matrix row values
+	`on: issues
+jobs:
+  «g»:
+    runs-on: ubuntu-latest
+    services:
+      «db»:
+        image: postgres
+        ports: [5432]
+    strategy:
+      matrix:
+        «cfg»:
+          - «Name»: a
+            «Nested»: {«Deep»: 1}
+          - «Name»: b
+            «Nested»: {«Deep»: 2}
+    steps:
+      - uses: actions/github-script@v7
+        with:
+          «script»: console.log('${{ «github».«event».«issue».«title» }}')
+      - uses: actions/github-script@v7
+        with:
+          «script»: console.log('${{ «github».«event».«issue».«number» }}')
+          «retries»: 1
+          «nosuch»: 1
+      - run: echo ${{ «job».«services».«db».«ports»['5432'] }} ${{ «job».«services».«db».nokey }}
+      - run: echo ${{ «matrix».«cfg».«name» }} ${{ «matrix».«cfg».«nested».«deep» }} ${{ «matrix».«cfg».nokey }} ${{ «matrix».«cfg».«nested».nodeep }}
+      - run: echo ${{ «runner».«os» }} ${{ «strategy».«job-index» }} ${{ «vars».«anything» }} ${{ «runner».nope }}
+      - run: echo '${{ «github».«event».«issue».«body» }}' ${{ «github».«head_ref» }}
+      - run: echo ${{ «github».«event».«issue».«labels».*.«name» }} ${{ «github»['«event»'].«comment»['«body»'] }}
+        env:
+          «SAFE»: ${{ «github».«event».«issue».«title» }}
+`,
 }
 
 var reMark = regexp.MustCompile(`«([^»]*)»`)
@@ -191,7 +227,7 @@ func runC08(c *ctx, r *Report) error {
 	if !c.quick {
 		nVariants = 1500
 	}
-	r.Rule = fmt.Sprintf("2 workflow templates in which every NAME occurrence is marked (job ids at definition / in needs: / in needs.<job> and jobs.<job>, step ids at id: and in steps.<id>, inputs / secrets / outputs at definition and use, matrix keys in rows / include / exclude / matrix.<key>, action input keys under with:, context names, property names incl. built-ins, function names incl. special functions, index literals ['name'], keys of a JSON literal passed to fromJSON); the templates contain defined and undefined references so that diagnostics exist; each is rendered as written and in %d random re-casings (each occurrence independently lower / UPPER / Capitalised) and linted by the real linter; the sequence of (line, column, kind, lower-cased message) must be identical; non-trivial = distinct re-cased renderings", nVariants)
+	r.Rule = fmt.Sprintf("3 workflow templates in which every NAME occurrence is marked (script positions with untrusted inputs incl. the script input key of actions/github-script, service ids, keys nested in matrix row values, job ids at definition / in needs: / in needs.<job> and jobs.<job>, step ids at id: and in steps.<id>, inputs / secrets / outputs at definition and use, matrix keys in rows / include / exclude / matrix.<key>, action input keys under with:, context names, property names incl. built-ins, function names incl. special functions, index literals ['name'], keys of a JSON literal passed to fromJSON); the templates contain defined and undefined references so that diagnostics exist; each is rendered as written and in %d random re-casings (each occurrence independently lower / UPPER / Capitalised) and linted by the real linter; the sequence of (line, column, kind, lower-cased message) must be identical; non-trivial = distinct re-cased renderings", nVariants)
 	for ti, tmpl := range c08Templates {
 		base, nOcc := renderCase(tmpl, rng, 0)
 		errs0, err := lintSrc("t.yaml", base)
@@ -254,7 +290,25 @@ func runC08(c *ctx, r *Report) error {
 			r.sample(map[string]string{"recased_excerpt": s[:400]})
 		}
 	}
-	return nil
+	// tie of the sema model that check_case_insensitive / json_keys_folded are about (no judge: the property relates
+	// two runs of the checker, a single differing output is not by itself a failing input)
+	nTie := 4000
+	if !c.quick {
+		nTie = 60000
+	}
+	return semaTie(c, r, nTie, func(rng *rand.Rand, env *semaEnv) {
+		// re-case some property names of the environment so that folded lookups are exercised
+		for _, v := range env.vars {
+			if o, ok := v.(*actionlint.ObjectType); ok && rng.Intn(3) == 0 {
+				for k, t := range o.Props {
+					if rng.Intn(2) == 0 {
+						delete(o.Props, k)
+						o.Props[strings.ToLower(k)] = t
+					}
+				}
+			}
+		}
+	}, nil, nil)
 }
 
 type relErr struct{}
